@@ -6,6 +6,7 @@ from props.common import layouts, chunks_for, reply_fmt, guarded, canon_cells, P
 
 PROP = "C06"
 MODULES = ["Curtsies.Properties.C06"]
+SOURCES = {"curtsies/formatstring.py": ["FmtStr.__getitem__", "normalize_slice", "FmtStr.__add__", "FmtStr.__radd__", "FmtStr.__mul__", "FmtStr.join", "FmtStr.__len__", "FmtStr.s", "FmtStr.__init__", "Chunk.__init__", "fmtstr", "FmtStr.from_str"]}
 RULE = ("exhaustive: every run layout (0..3 runs, run lengths >=0, total <=5 quick / <=6 thorough, distinct characters, "
         "run i formatted with palette entry i) x every slice (a,b) in ([-len-2,len+2] u {None})^2 and every int index in "
         "[-len-2,len+2]; + on all ordered pairs of a 14-value pool with FmtStr and plain str on either side; * with counts "
@@ -145,14 +146,19 @@ def oracle(c):
         return "%s raised %s, expected %s" % (c["op"], type(e).__name__, exp)
     if exp[0] == "raises":
         return "%s returned %r, str would raise %s" % (c["op"], r, exp[1])
-    got = cells(r)
-    if got != exp[1]:
-        return "%s: characters/formatting differ: got %r expected %r" % (c["op"], got, exp[1])
-    text = "".join(ch for ch, _ in exp[1])
-    if r.s != text:
-        return "%s: .s is %r, str operation gives %r" % (c["op"], r.s, text)
-    if len(r) != len(exp[1]):
-        return "%s: len() is %d, number of characters is %d" % (c["op"], len(r), len(exp[1]))
+    try:
+        got = cells(r)
+        if got != exp[1]:
+            return "%s: characters/formatting differ: got %r expected %r" % (c["op"], got, exp[1])
+        text = "".join(ch for ch, _ in exp[1])
+        if r.s != text:
+            return "%s: .s is %r, str operation gives %r" % (c["op"], r.s, text)
+        if len(r) != len(exp[1]):
+            return "%s: len() is %d, number of characters is %d" % (c["op"], len(r), len(exp[1]))
+        if bool(r) != bool(text):
+            return "%s: truth value differs from that of the text" % c["op"]
+    except Exception as e:  # noqa: BLE001 - observing the result must not raise
+        return "%s: observing the result (.s / len / chunks) raised %s: %s" % (c["op"], type(e).__name__, e)
     return None
 
 
